@@ -104,6 +104,7 @@ def corpus_universes():
         for i, r in enumerate(order):
             roots.append({"dir": d / r, "lookup": [d / x for x in order[:i]]})
         out.append(Universe("corpus:" + d.name, roots, "corpus"))
+        out[-1].light = (d / "LIGHT").exists()
     return out
 
 
@@ -355,6 +356,10 @@ class Cfg:
         return f"{'1' if lang.enable_stropping else '0'} {enc(lang.extension)} {tbl}"
 
 
+# quick tier: what a corpus universe marked LIGHT is generated with (the stress universe meets every configuration)
+LIGHT_CONFIGS = ("c/default", "c/omit", "cpp/c++14", "cpp/c++17+omit", "cpp/c++20", "cpp/c++17-pmr+omit", "py/default", "py/omit")
+
+
 def configurations(quick):
     cs = []
     all_opts = ["--target-endianness", "little", "--enable-serialization-asserts", "--enable-override-variable-array-capacity"]
@@ -530,6 +535,8 @@ def compile_jobs_for(cfg, outdir, headers, flags, quick):
         for h in headers:
             jobs.append((outdir, h, ["gcc", "-std=c11"] + flags["c"] + flags["gnu_extra"], "c"))
             jobs.append((outdir, h, ["clang", "-std=c11"] + flags["c"], "c"))
+            if quick and cfg.ident not in ("c/default", "c/omit"):
+                continue     # the C header inside a C++ TU: quick tier only for these two configurations
             jobs.append((outdir, h, ["g++", "-std=c++14"] + flags["cxx"] + flags["c_in_cxx_extra"] + flags["gnu_extra"], "c++"))
             jobs.append((outdir, h, ["clang++", "-std=c++14"] + flags["cxx"] + flags["c_in_cxx_extra"], "c++"))
     elif cfg.target == "cpp":
@@ -841,6 +848,8 @@ def run(ctx: common.Ctx):
                 continue
             # quick tier: the corpus meets every configuration; a generated universe the three basic ones and every second of the rest
             if quick and u.origin != "corpus" and c.ident not in ("c/default", "cpp/c++17", "py/default") and (ci + ui) % 2:
+                continue
+            if quick and getattr(u, "light", False) and c.ident not in LIGHT_CONFIGS:
                 continue
             out = ctx.scratch / "out" / f"u{ui}" / c.ident.replace("/", "_")
             out.mkdir(parents=True)
